@@ -21,7 +21,9 @@ def nontrivial(req, obs):
 
 PROP = {
     "id": "C15",
-    "lean_targets": ["WmModel.Props.C15", "WmModel.Props.C15Tie"],
+    "lean_targets": ["WmModel.Props.C15", "WmModel.Props.C15Tie", "WmModel.Props.C15Router", "WmModel.Props.C02Tie"],
+    # settleOf is derived from the handleMessage model: its body is re-extracted and its tie re-proved here too
+    "extract_also": ["C02"],
     "audit_module": "Audit.C15",
     "theorems": [
         "Wm.Cqrs.bus_publishes_once", "Wm.Cqrs.bus_name_metadata", "Wm.Cqrs.bus_hook_before_publish",
@@ -33,9 +35,12 @@ PROP = {
         "Wm.Cqrs.ack_table_group", "Wm.Cqrs.group_handler_error_nack",
         "Wm.Cqrs.unknown_type_policy", "Wm.Cqrs.flags_scope", "Wm.Cqrs.per_message_independent",
         "Wm.Cqrs.value_round_trip", "Wm.Cqrs.value_round_trip_group",
+        # settleOf derived from the C02/C03 models (Props/C15Router.lean)
+        "Wm.Cqrs.settleOf_eq_handle", "Wm.Cqrs.processor_handler_never_publishes",
     ],
     # theorems over the closure bodies regenerated from the Go source on every run
     "tie_theorems": [
+        "Wm.GoHandle.handle_skeleton_eq_model", "Wm.GoHandle.publish_skeleton_eq_model",
         "Wm.GoCqrs.extracted_command_eq_model", "Wm.GoCqrs.extracted_event_eq_model",
         "Wm.GoCqrs.extracted_group_eq_model", "Wm.GoCqrs.extracted_no_unknown",
     ],
